@@ -93,6 +93,76 @@ def realise(kind, n, edges, order):
     return "\n".join(decls)
 
 
+NODE_KINDS = ["fb", "struct", "alias", "arrayof"]
+LEAF_KINDS = ["fb", "struct", "enum", "subrange", "array", "string"]
+
+
+def hetero_vector(rng, n, edges):
+    """A kind for every node: function block, structure, alias or array-of for inner nodes (alias / array-of need exactly
+    one successor), any declarable type for leaves; a spelling for every reference held by a function block or a
+    structure (plain `v : T;`, with an initial value `v : T := (x := 1);`, as the element type of an inline array
+    `v : ARRAY[0..1] OF T;`); plus, sometimes, one reference to a name nobody declares."""
+    outdeg = [0] * n
+    for a, _b in edges:
+        outdeg[a] += 1
+    vec = []
+    for i in range(n):
+        if outdeg[i] == 0:
+            vec.append(rng.choice(LEAF_KINDS))
+        elif outdeg[i] == 1:
+            vec.append(rng.choice(NODE_KINDS))
+        else:
+            vec.append(rng.choice(["fb", "struct"]))
+    styles = {}
+    for a, b in edges:
+        if vec[a] in ("fb", "struct"):
+            st = rng.choice(["plain", "plain", "init", "inline-array"])
+            if st == "init" and vec[b] not in ("fb", "struct"):
+                st = "plain"
+            styles["%d-%d" % (a, b)] = st
+    dangling = rng.randrange(n) if rng.random() < 0.15 else None
+    return {"kinds": vec, "dangling": dangling, "styles": styles}
+
+
+def realise_hetero(n, edges, order, vec):
+    succ = {i: [b for a, b in edges if a == i] for i in range(n)}
+    styles = vec.get("styles", {})
+    decls = []
+    for i in order:
+        k = vec["kinds"][i]
+        refs = []
+        for j, b in enumerate(succ[i]):
+            st = styles.get("%d-%d" % (i, b), "plain")
+            if st == "init":
+                refs.append("r%d_%d : N%d := (x := 1);" % (i, j, b))
+            elif st == "inline-array":
+                refs.append("r%d_%d : ARRAY[0..1] OF N%d;" % (i, j, b))
+            else:
+                refs.append("r%d_%d : N%d;" % (i, j, b))
+        if vec.get("dangling") == i:
+            refs.append("r%d_x : NoSuchType;" % i)
+        names = ["N%d" % b for b in succ[i]] + (["NoSuchType"] if vec.get("dangling") == i else [])
+        if k in ("alias", "arrayof") and len(names) != 1:
+            k = "struct"
+        if k == "fb":
+            decls.append("FUNCTION_BLOCK N%d VAR_INPUT x : INT; END_VAR VAR %s END_VAR END_FUNCTION_BLOCK" % (i, " ".join(refs) or "y : INT;"))
+        elif k == "struct":
+            decls.append("TYPE N%d : STRUCT x : INT; %s END_STRUCT; END_TYPE" % (i, " ".join(refs)))
+        elif k == "alias":
+            decls.append("TYPE N%d : %s; END_TYPE" % (i, names[0]))
+        elif k == "arrayof":
+            decls.append("TYPE N%d : ARRAY[0..3] OF %s; END_TYPE" % (i, names[0]))
+        elif k == "enum":
+            decls.append("TYPE N%d : (n%d_a, n%d_b); END_TYPE" % (i, i, i))
+        elif k == "subrange":
+            decls.append("TYPE N%d : INT(0..%d); END_TYPE" % (i, i + 1))
+        elif k == "array":
+            decls.append("TYPE N%d : ARRAY[0..3] OF INT; END_TYPE" % i)
+        else:
+            decls.append("TYPE N%d : STRING[%d]; END_TYPE" % (i, i + 1))
+    return "\n".join(decls)
+
+
 def all_graphs(n):
     pairs = [(a, b) for a in range(n) for b in range(n)]
     for mask in range(1 << len(pairs)):
@@ -138,8 +208,13 @@ def random_graph(rng):
     return n, sorted(edges)
 
 
-def judge(res, probe, kind, n, edges, order, bad_kinds, recase_rng=None):
-    text = realise(kind, n, edges, order)
+def judge(res, probe, kind, n, edges, order, bad_kinds, recase_rng=None, vec=None, text=None):
+    if text is not None:
+        recase_rng = None
+    elif kind == "hetero":
+        text = realise_hetero(n, edges, order, vec)
+    else:
+        text = realise(kind, n, edges, order)
     if recase_rng is not None:
         # identifiers are case-insensitive: a reference spelled in another letter case is the same edge
         import vgen
@@ -148,6 +223,11 @@ def judge(res, probe, kind, n, edges, order, bad_kinds, recase_rng=None):
     res.evaluations += 1
     res.count("kind:" + kind)
     case = {"kind": kind, "n": n, "edges": edges, "order": order, "text": text, "recased": recase_rng is not None}
+    if vec is not None:
+        case["node_kinds"] = vec
+        res.seen("hetero_kind_sets", "+".join(sorted(set(vec["kinds"]))) + ("+dangling" if vec["dangling"] is not None else ""))
+        for st in set(vec.get("styles", {}).values()):
+            res.seen("reference_spellings", st)
     if obs.get("watchdog"):
         res.inconclusive.append({"why": "watchdog", "case": case})
         return
@@ -186,7 +266,8 @@ def shard(shard_i, nshards, payload):
                 for kind in kinds:
                     order = list(range(n))
                     rng.shuffle(order)
-                    judge(res, probe, kind, n, edges, order, (), rng if idx % 3 == 0 else None)
+                    judge(res, probe, kind, n, edges, order, (), rng if idx % 3 == 0 else None,
+                          vec=hetero_vector(rng, n, edges) if kind == "hetero" else None)
         # sampled 4-node graphs (quick) and random larger graphs
         for i in range(shard_i, payload["n_sample4"], nshards):
             rng = core.rng_for(seed, "c07s4", i)
@@ -196,14 +277,16 @@ def shard(shard_i, nshards, payload):
             for kind in kinds:
                 order = list(range(4))
                 rng.shuffle(order)
-                judge(res, probe, kind, 4, edges, order, (), rng if i % 3 == 0 else None)
+                judge(res, probe, kind, 4, edges, order, (), rng if i % 3 == 0 else None,
+                      vec=hetero_vector(rng, 4, edges) if kind == "hetero" else None)
         for i in range(shard_i, payload["n_random"], nshards):
             rng = core.rng_for(seed, "c07r", i)
             n, edges = random_graph(rng)
             for kind in kinds:
                 order = list(range(n))
                 rng.shuffle(order)
-                judge(res, probe, kind, n, edges, order, (), rng if i % 3 == 0 else None)
+                judge(res, probe, kind, n, edges, order, (), rng if i % 3 == 0 else None,
+                      vec=hetero_vector(rng, n, edges) if kind == "hetero" else None)
             if len(res.samples) < 2:
                 res.sample({"n": n, "edges": edges, "cyclic": has_cycle(n, edges), "text": realise("fb", n, edges, list(range(n)))[:300]})
     finally:
@@ -213,19 +296,22 @@ def shard(shard_i, nshards, payload):
 
 def run(tier, seed):
     core.build_probe()
-    kinds = ["fb", "struct", "mixed", "array", "enumalias"]
+    kinds = ["fb", "struct", "mixed", "array", "enumalias", "hetero", "hetero"]
     if tier == "quick":
         payload = {"seed": seed, "kinds": kinds, "exhaustive_n": [1, 2, 3], "n_sample4": 2000, "n_random": 400}
     else:
         payload = {"seed": seed, "kinds": kinds, "exhaustive_n": [1, 2, 3, 4], "n_sample4": 0, "n_random": 20000}
     parts = core.run_sharded(shard, payload)
+    parts.append(witnesses().to_dict())
     res = core.Result.merge(parts)
     exhaustive4 = tier == "thorough"
     extra = {
         "rule": "every directed graph with self-loops on <= %d nodes (%s), sampled 4-node graphs and random graphs on "
                 "5-12 nodes (sparse, dense DAG + back edge, chains, diamonds, cycles unreachable from the first "
                 "declaration), each realised as function-block instance graph, structure graph, mixed alias/structure "
-                "graph and array-element graph, declaration order shuffled; judged against a reference DFS cycle test; "
+                "graph, array-element graph and (twice) as a heterogeneous graph whose nodes are independently function "
+                "blocks, structures, aliases or array-of types with enumeration / subrange / array / string leaves and an "
+                "occasional reference to an undeclared name, declaration order shuffled; judged against a reference DFS cycle test; "
                 "distinct = distinct (realisation, graph) pairs that agreed" % (4 if exhaustive4 else 3,
                                                                             "2+16+512+65536 graphs" if exhaustive4 else "2+16+512 graphs"),
         "exhaustive": exhaustive4,
@@ -236,12 +322,62 @@ def run(tier, seed):
     return res, extra
 
 
+def judge_text(res, probe, text, cyclic, tag):
+    obs = probe.run({"op": "analyze", "files": [["c07.st", text]]})
+    res.evaluations += 1
+    res.count("witness")
+    case = {"kind": "witness", "text": text, "cyclic": cyclic, "finding": tag}
+    if obs.get("watchdog"):
+        res.inconclusive.append({"why": "watchdog", "case": case})
+        return
+    if "died" in obs or "panic" in obs:
+        res.violation("crash", "witness:crash", obs.get("panic", obs.get("died")), case)
+        return
+    codes = [d["code"] for d in obs.get("diags", [])]
+    flagged = any(c in REC for c in codes)
+    if cyclic and not flagged:
+        res.violation("cycle-accepted", "witness:%s" % tag, {"codes": codes}, case)
+    elif not cyclic and flagged:
+        res.violation("acyclic-rejected", "witness:%s" % tag, {"codes": codes}, case)
+
+
+def witnesses():
+    """The witnesses of every finding (open or fixed) are judged again on every run."""
+    res = core.Result()
+    fs = [f for f in core.load_findings(PROP) if f.get("witness")]
+    if not fs:
+        return res
+    probe = core.Probe()
+    try:
+        for f in fs:
+            for text in f["witness"]["texts"]:
+                judge_text(res, probe, text, f["witness"]["cyclic"], f["id"])
+    finally:
+        probe.close()
+    return res
+
+
 def replay(case):
+    if case["case"].get("kind") == "witness":
+        core.build_probe()
+        c = case["case"]
+        res = core.Result()
+        probe = core.Probe()
+        judge_text(res, probe, c["text"], c["cyclic"], c.get("finding", "?"))
+        probe.close()
+        if res.violations:
+            v = res.violations[0]
+            return False, "%s %s %s" % (v["kind"], v["sig"], v["detail"])
+        return True, "held"
+    return replay_graph(case)
+
+
+def replay_graph(case):
     core.build_probe()
     c = case["case"]
     res = core.Result()
     probe = core.Probe()
-    judge(res, probe, c["kind"], c["n"], [tuple(e) for e in c["edges"]], c["order"], ())
+    judge(res, probe, c["kind"], c["n"], [tuple(e) for e in c["edges"]], c["order"], (), text=c.get("text"))
     probe.close()
     if res.violations:
         v = res.violations[0]
